@@ -53,7 +53,9 @@ type colSpec struct {
 	Extra    []value // literal-only values (neighbours, out-of-range, finer scale)
 }
 
-func (c *colSpec) ci() bool { return c.Kind == kStr && (c.Coll == "ai_ci" || c.Coll == "general_ci" || c.Coll == "unicode_ci") }
+func (c *colSpec) ci() bool {
+	return c.Kind == kStr && (c.Coll == "ai_ci" || c.Coll == "general_ci" || c.Coll == "unicode_ci")
+}
 
 // planDependent: MIN/MAX/GROUP BY/DISTINCT representatives of such a column legitimately depend on the plan.
 func (c *colSpec) planDependent() bool { return c.ci() || c.Kind == kEnum }
